@@ -170,6 +170,13 @@ def _reuse_comp(kind, obj, j, how, live):
     """the live object of the previous step turned into the content `j`; None = cannot (build a fresh one)"""
     import attr
     p = P()
+    if how == "copy_assign":                 # `copy.copy` of the object used before, then assignment to the copy
+        if kind in ("label_kw", "tag_kw", "tags_kw", "segment", "anns", "clip"):
+            return None
+        try:
+            return _reuse_comp(kind, copy.copy(obj), j, "assign", live)
+        except Exception:  # noqa: BLE001 - an object that cannot be copied is built anew
+            return None
     deep = how == "deep_copy_update"
     inplace = how == "inplace"
     if kind in ("label_kw", "tag_kw", "tags_kw"):
@@ -556,7 +563,7 @@ def _base_compare(step, io, mo):
 
 
 BASE = Op("step", None, to_model=_base_to_model, compare=_base_compare, model_op="step")
-REUSE = ("same", "assign", "inplace", "copy_update", "deep_copy_update")
+REUSE = ("same", "assign", "inplace", "copy_update", "deep_copy_update", "copy_assign")
 
 HISTORY = history.history_op("history", BASE, _build, _call, _canon, snapshot=_snapshot, modify=_modify, poison=_poison)
 
